@@ -184,6 +184,9 @@ class Workdir:
 
 
 HARNESS_DROPPED = []
+# VERIF_COVER=1 (lib/coverage.sh): knut and the harness are built with statement coverage of knut's own packages; every
+# run of either then leaves its counters in $GOCOVERDIR.  Measures which part of knut the correspondence exercises.
+COVER_FLAGS = (["-cover", "-coverpkg=./lib/...,./cmd/...,."] if os.environ.get("VERIF_COVER") else [])
 
 
 def build_harness(wd, tags="verif"):
@@ -203,10 +206,19 @@ def build_harness(wd, tags="verif"):
         for f in sorted(glob.glob(os.path.join(VERIF, "harness", "overlay", "**", "*.go"), recursive=True)):
             rel = os.path.relpath(f, os.path.join(VERIF, "harness", "overlay"))
             repl[os.path.join(REPO, rel)] = f
+        if COVER_FLAGS:
+            # the cover tool does not read overlays: the harness files are copied into the tree, which must be a scratch
+            # copy (lib/coverage.sh makes one)
+            assert REPO.startswith("/tmp/"), "VERIF_COVER needs VERIF_REPO to be a scratch copy under /tmp"
+            shutil.rmtree(os.path.join(REPO, "cmd", "verifharness"), ignore_errors=True)
+            for dst, src in repl.items():
+                os.makedirs(os.path.dirname(dst), exist_ok=True)
+                shutil.copyfile(src, dst)
+            repl = {}
         ov = os.path.join(wd.path, "overlay.json")
         json.dump({"Replace": repl}, open(ov, "w"))
         out = os.path.join(wd.path, "verifharness")
-        p = subprocess.run(["go", "build", "-tags", tags, "-overlay", ov, "-o", out, "./cmd/verifharness"],
+        p = subprocess.run(["go", "build"] + COVER_FLAGS + ["-tags", tags, "-overlay", ov, "-o", out, "./cmd/verifharness"],
                            cwd=REPO, env=GOENV, stdout=subprocess.PIPE, stderr=subprocess.STDOUT, text=True, timeout=900)
         if p.returncode == 0:
             if HARNESS_DROPPED and not source_changed():
@@ -224,7 +236,7 @@ def build_harness(wd, tags="verif"):
 
 def build_knut(wd, tags="verif", race=False):
     out = os.path.join(wd.path, "knut-race" if race else "knut")
-    cmd = ["go", "build", "-tags", tags, "-o", out]
+    cmd = ["go", "build"] + COVER_FLAGS + ["-tags", tags, "-o", out]
     env = dict(GOENV)
     if race:
         cmd.insert(2, "-race")
